@@ -5,7 +5,7 @@ import re
 from .. import common, gen, trees, parsing
 
 LEVEL = "proof"
-EXTRA_LEAN_MODULES = ["Luqum.Props.GenPrint", "Luqum.Props.GenGlue"]   # __str__ translated from the source (tools/pysym.py)
+EXTRA_LEAN_MODULES = ["Luqum.Props.GenPrint", "Luqum.Props.GenGlue", "Luqum.Props.GenVisitAht"]   # __str__ translated from the source (tools/pysym.py)
 RULE = ("(a) parsed queries with their layout stripped, (b) programmatic trees over all classes with adversarial "
         "term values (=b, T12, 30, TO, digits after implicit ~ / ^), without layout and (c) with partial layout. "
         "'Expressible' is decided by printing the tree with a blank between all tokens and parsing that. "
